@@ -344,7 +344,7 @@ class method, shorthand keywords, `def initialize(a, *rest, **opts)`, `def
 size=(v)`, `def <(other)`, `v = begin ... rescue ... end`, method bodies with
 their own rescue clause). Wherever ti got one wrong, the idiom first went into
 the generator of the property it belongs to, the check was confirmed to report
-it on the unchanged tree, and only then was ti repaired: 14 `fix:` commits came
+it on the unchanged tree, and only then was ti repaired: 11 `fix:` commits came
 about that way.
 
 ### 11.8 Self-validation performed
